@@ -171,7 +171,8 @@ theorem command_sees_normalized_profile (report : Profile → Config → List St
     simp at hc
   | cons t0 rest =>
     rw [hf] at hp
-    simp only [hp, init, hrt]
+    simp only [hp]
+    simp only [init, hrt]
 
 /-! ### non-vacuity: the hypotheses are met by ordinary sessions -/
 
@@ -187,24 +188,25 @@ def exHistory : List Str :=
   [lit "top 5 foo -bar", lit "focus=main //: comment", lit "tags k", lit "peek . >out", lit "cum=1", lit "traces"]
 
 -- the history is live, the probe is a report line, and a mutating report precedes it
-example : (run exEnv exInit exHistory).done = false := by decide
-example : isReportLine exInit.stypes (lit "top10 -cum") = true := by decide
-example : (exHistory.filter (isAssignLine exInit.stypes)) = [lit "focus=main //: comment", lit "cum=1"] := by decide
+example : (run exEnv exInit exHistory).done = false := by decide +kernel
+example : isReportLine exInit.stypes (lit "top10 -cum") = true := by decide +kernel
+example : (exHistory.filter (isAssignLine exInit.stypes)) = [lit "focus=main //: comment", lit "cum=1"] := by decide +kernel
 example : (cfgAfter exEnv exInit exHistory).get (lit "focus") = some (lit "main") ∧
           (cfgAfter exEnv exInit exHistory).get (lit "sort") = some (lit "cum") ∧
           (cfgAfter exEnv exInit exHistory).get (lit "nodecount") = some (lit "-1") ∧
-          (cfgAfter exEnv exInit exHistory).get (lit "output") = some [] := by decide
+          (cfgAfter exEnv exInit exHistory).get (lit "output") = some [] := by decide +kernel
 -- hypotheses of assignments_persist / assignment_sets_value
 example : lookupShortcut exInit.stypes (trimSpace (lit "focus=main")) = none ∧
           isAssignInput (trimSpace (lit "focus=main")) = true ∧
-          (assign exEnv.floatNorm exInit (lit "focus") (some (lit "main"))).toBool = true := by decide
+          (assign exEnv.floatNorm exInit (lit "focus") (some (lit "main"))).toBool = true := by decide +kernel
 example : ∃ f, lookupField f.name = some f ∧ f.kind = .str ∧ f.choices = [] ∧
     (f.name == lit "sample_index") = false ∧ f.name ∈ exInit.cfg.keys :=
-  ⟨mk "focus" .str "f" "", by decide⟩
-example : exInit.cfg.keys = defaultConfig.keys := by decide
+  ⟨mk "focus" .str "f" "", by decide +kernel, by decide +kernel, by decide +kernel, by decide +kernel,
+    by decide +kernel⟩
+example : exInit.cfg.keys = defaultConfig.keys := by decide +kernel
 -- shortcut lines are assignment lines; a command line with arguments is not
 example : isAssignLine exInit.stypes (lit " total_cpu ") = true ∧ isAssignLine exInit.stypes (lit ":") = true ∧
-          isAssignLine exInit.stypes (lit "top 5 foo") = false := by decide
+          isAssignLine exInit.stypes (lit "top 5 foo") = false := by decide +kernel
 
 end Examples
 
